@@ -51,6 +51,8 @@ R3_TRIAGED: dict[tuple[str, str], str] = {
 
 
 IMPLICIT_TRIAGED = {
+    ('exabgp.bgp.message.update.attribute.bgpls.linkstate.FlagLS.unpack_flags', 'ValueError'): "int(bit): bit is a character of f'{octet:08b}', always '0' or '1'",
+    ('exabgp.bgp.message.update.attribute.bgpls.node.isisarea.IsisArea.content', 'ValueError'): 'int(packed.hex(), 16): IsisArea.unpack_bgpls refuses an empty TLV and the hex of non-empty bytes is valid base 16',
     ('exabgp.bgp.message.notification.Notify.__init__', 'UnicodeEncodeError'): 'text of locally raised notifications: the decode-side messages interpolate numbers and hex dumps only',
 }
 
